@@ -293,6 +293,9 @@ int main(){
             }
             // ------------------------------------------------------------ end to end: a population through cell_divider::run
             else if(w[0] == "popclear"){ pop.clear(); pop_obj.clear(); std::cout << "ok\n"; }
+            else if(w[0] == "poptake" && w.size() == 2 && std::stoul(w[1]) < pop.size()){
+                c = std::dynamic_pointer_cast<probe_epi>(pop[std::stoul(w[1])]); std::cout << (c ? "ok\n" : "err notprobe\n"); }
+            else if(w[0] == "popready"){ for(auto& cc : pop) cell_tester::division_volume(*cc) = 0.0; std::cout << "ok " << pop.size() << "\n"; }
             else if(w[0] == "popadd" && w.size() == 7){
                 // popadd <dx dy dz> <ready 0|1> <id> <tv>: a copy of the request mesh, translated
                 mesh mm; mm.node_pos_lst = pos; mm.face_point_ids = polys;
